@@ -1980,8 +1980,9 @@ Proof.
   - (* LAutoDelete *)
     destruct (autodel s) as [|qn rest]; [exact H|].
     assert (H0 : wake_inv cfg (s <| autodel := rest |>)) by (revert H; apply sameview_inv; apply sameview_fields; reflexivity).
-    pose proof (WI_vhost_delete_queue cfg (negb (fx_delete_checks_first fx)) _ qn false false H0) as Hd.
-    destruct (vhost_delete_queue _ (s <| autodel := rest |>) qn false false) as [[s1 e1] r1]. exact Hd.
+    destruct (get_queue _ qn) as [qu0|]; [|exact H0]. destruct (q_autodel qu0); [|exact H0].
+    pose proof (WI_vhost_delete_queue cfg (negb (fx_delete_checks_first fx)) _ qn true false H0) as Hd.
+    destruct (vhost_delete_queue _ (s <| autodel := rest |>) qn true false) as [[s1 e1] r1]. exact Hd.
   - (* LPersistTick *)
     cbn [fst]. apply fold_left_preserves; [intros; apply WI_store_confirm; auto|].
     revert H. apply sameview_inv. apply sameview_fields; reflexivity.
@@ -2342,8 +2343,9 @@ Proof.
   - (* LAutoDelete *)
     destruct (autodel s) as [|qn rest]; [exact H|].
     assert (H0 : closed_empty (s <| autodel := rest |>)) by (same_conns; auto).
-    pose proof (CE_vhost_delete_queue (negb (fx_delete_checks_first fx)) _ qn false false H0) as Hd.
-    destruct (vhost_delete_queue _ (s <| autodel := rest |>) qn false false) as [[s1 e1] r1]. exact Hd.
+    destruct (get_queue _ qn) as [qu0|]; [|exact H0]. destruct (q_autodel qu0); [|exact H0].
+    pose proof (CE_vhost_delete_queue (negb (fx_delete_checks_first fx)) _ qn true false H0) as Hd.
+    destruct (vhost_delete_queue _ (s <| autodel := rest |>) qn true false) as [[s1 e1] r1]. exact Hd.
   - (* LPersistTick *)
     cbn [fst]. apply fold_left_preserves.
     + intros s0 k H0. eapply allch_same_conns; [apply conns_store_confirm|exact H0].
@@ -2717,8 +2719,9 @@ Proof.
   - cbn [fst]. apply hle_queue_loop_turn.
   - (* LAutoDelete *)
     destruct (autodel s) as [|qn rest]; [apply hle_refl|].
-    pose proof (hle_vhost_delete_queue (negb (fx_delete_checks_first fx)) (s <| autodel := rest |>) qn false false) as Hd.
-    destruct (vhost_delete_queue _ (s <| autodel := rest |>) qn false false) as [[s1 e1] r1]. cbn [fst] in *.
+    destruct (get_queue _ qn) as [qu0|]; [|apply hle_same; reflexivity]. destruct (q_autodel qu0); [|apply hle_same; reflexivity].
+    pose proof (hle_vhost_delete_queue (negb (fx_delete_checks_first fx)) (s <| autodel := rest |>) qn true false) as Hd.
+    destruct (vhost_delete_queue _ (s <| autodel := rest |>) qn true false) as [[s1 e1] r1]. cbn [fst] in *.
     eapply hle_trans; [|exact Hd]. apply hle_same; reflexivity.
   - (* LPersistTick *)
     cbn [fst]. eapply hle_trans; [|apply hle_fold; intros; apply hle_store_confirm]. apply hle_same; reflexivity.
